@@ -59,7 +59,7 @@ def judge_reject(ctx, s, ev, lits, isint, why):
     verdict = ("wrong coefficients, conflict valid (LP finds %s)" % [str(x) for x in other]) if other else \
         "no Farkas coefficients exist for these literals: the conflict itself is not T-unsatisfiable by LP (also a C11 violation)"
     sig = "la-certificate:%s:%s:%s" % (s["logic"], why, "coeffs" if other else "conflict")
-    ctx.violation(sig, "LA conflict whose Farkas certificate is rejected (%s): %s" % (why, verdict),
+    return ctx.violation(sig, "LA conflict whose Farkas certificate is rejected (%s): %s" % (why, verdict),
                   dict(script=s["text"], engine=s["engine"], logic=s["logic"], event=ev.raw, integer_tightening=isint,
                        verdict=verdict, how="OPENSMT_VERIF_TRACE=t build/impl/opensmt script.smt2; the (la ...) line of t"))
 
@@ -94,8 +94,8 @@ def run(ctx):
                 n_la += 1
                 lits = TC.la_event_lits(ev)
                 if lits is None:
-                    judge_reject(ctx, s, ev, None, isint, "malformed")
-                    ctx.tie_broken("la-event-shape", ev.raw[:300], dict(script=s["text"]))
+                    if judge_reject(ctx, s, ev, None, isint, "malformed"):
+                        ctx.tie_broken("la-event-shape", ev.raw[:300], dict(script=s["text"]))
                     continue
                 queries.append(TC.encode_la("Q", isint, lits))
                 meta.append((s, ev, lits, isint))
@@ -127,8 +127,8 @@ def run(ctx):
         for k_ in kinds:
             ctx.count("la-feature:" + k_)
         if ans != "1":
-            judge_reject(ctx, s, ev, lits, isint, "rejected" if ans == "0" else "driver:" + ans[:40])
-            ctx.tie_broken("la-certificate", "extracted la_conflict_check rejects %s" % ev.raw[:300], dict(script=s["text"], event=ev.raw))
+            if judge_reject(ctx, s, ev, lits, isint, "rejected" if ans == "0" else "driver:" + ans[:40]):
+                ctx.tie_broken("la-certificate", "extracted la_conflict_check rejects %s" % ev.raw[:300], dict(script=s["text"], event=ev.raw))
     ctx.extra["la_conflicts"] = n_la
     ctx.extra["scripts"] = len(scripts)
     ctx.note("%d LA conflicts from %d scripts (%d with at least one conflict)" % (
